@@ -8,6 +8,9 @@ CONSTANTS
   PackRounds = 2
   CleanRounds = 2
   Order <- OrderCode
+  PrevIdx <- MCPrevIdx
+  Incremental = FALSE
+  IdxByChecksum = TRUE
   RestCopiesLiveIndex = TRUE
 INVARIANT BackupValid
 INVARIANT SourceOK
